@@ -71,6 +71,15 @@ def carrier_cases(rep):
                 fl.append(("idx.const.label-offset", "V+1,X", {"mode": "idx", "kind": "off", "reg": "X", "off": "V+1", "ind": False}))
                 fl.append(("idx.const.label-offset", "[V-1,S]", {"mode": "idx", "kind": "off", "reg": "S", "off": "V-1", "ind": True}))
                 fl.append(("idx.const.label-offset", "2+V,U", {"mode": "idx", "kind": "off", "reg": "U", "off": "V+2", "ind": False}))
+            if v >= 256:
+                # a label displaced by a negative EQU constant (K EQU -2): the table entry in front of a label (wave 10, C01-N)
+                if "imm" in m and m["imm"][1] == 16:
+                    fl.append(("imm16.label-negative-equ", "#V+K", {"mode": "imm", "val": "V-2", "bits": 16}))
+                if "ext" in m:
+                    fl.append(("mem.plain.label-negative-equ", "V+K", {"mode": "mem", "val": "V-2"}))
+                if "idx" in m:
+                    fl.append(("extind.label-negative-equ", "[V+K]", {"mode": "idx", "kind": "extind", "addr": "V-2"}))
+                    fl.append(("idx.const.label-negative-equ", "V+K,X", {"mode": "idx", "kind": "off", "reg": "X", "off": "V-2", "ind": False}))
             for form, opnd, exp in fl:
                 if order == "label-before" and v == 0 and "V-1" in opnd:
                     continue          # label-1 below address 0: outside 0..65535, may be rejected or wrapped (C04) - not C01's business
@@ -80,6 +89,8 @@ def carrier_cases(rep):
                 else:
                     lines = [" ORG $%X\n" % v, " %s %s\n" % (rep, opnd)] + asmjudge.TAIL + ["V NOP\n"]
                     target = 1
+                if "K" in opnd:
+                    lines, target = ["K EQU -2\n"] + lines, target + 1
                 yield {"id": "%s/%s/%s/%s/%d" % (form, rep, opnd, order, v), "lines": lines, "target": target, "mn": rep,
                        "canon": rep, "form": form, "expect": exp, "traits": dict(tr, ind=False), "operand": opnd,
                        "notail": True, "symval": "V"}
